@@ -519,6 +519,12 @@ func skolemiseHyp(f *sexp, pos bool, counter *int, consts *[][2]string) (*sexp, 
 }
 
 func augment(lines []string, guard, goal string, intFuncs map[string]bool) (extraDecls []string, extra []string, newGoal string) {
+	extraDecls, extra, newGoal = augment0(lines, guard, goal, intFuncs)
+	extra = append(extra, derivedAddressFacts(append(append([]string{}, extra...), sx("assert", newGoal)))...)
+	return extraDecls, extra, newGoal
+}
+
+func augment0(lines []string, guard, goal string, intFuncs map[string]bool) (extraDecls []string, extra []string, newGoal string) {
 	g, ok := parseSexp(goal)
 	if !ok {
 		return nil, nil, goal
@@ -768,6 +774,10 @@ func augment(lines []string, guard, goal string, intFuncs map[string]bool) (extr
 		if strings.HasPrefix(l, "(assert (forall ((c!0 Int)") {
 			continue
 		}
+		// axioms of derived address functions: their instances at the ground applications are added below
+		if strings.HasPrefix(l, "(assert (forall ((ea!b Int)") || strings.HasPrefix(l, "(assert (forall ((fa!r Int)") {
+			continue
+		}
 		if f, ok := parseSexp(l); ok {
 			quantified = append(quantified, f)
 		}
@@ -928,6 +938,50 @@ func augment(lines []string, guard, goal string, intFuncs map[string]bool) (extr
 		}
 	}
 	return extraDecls, extra, newGoal
+}
+
+// derivedAddressFacts: for every ground application of an element-address or field-address
+// function in the given assertions, the instance of its axiom (injective, below zero).
+func derivedAddressFacts(asserts []string) []string {
+	seen := map[string]bool{}
+	var out []string
+	var walk func(f *sexp)
+	walk = func(f *sexp) {
+		if f.list == nil {
+			return
+		}
+		for _, c := range f.list {
+			walk(c)
+		}
+		h := f.head()
+		if strings.Contains(h, "!") {
+			return
+		}
+		isEa := strings.HasPrefix(h, "ea_") && len(f.list) == 3
+		isFa := strings.HasPrefix(h, "fa_") && len(f.list) == 2
+		if !isEa && !isFa {
+			return
+		}
+		t := f.String()
+		if seen[t] || strings.Contains(t, "q!") || len(t) > 600 {
+			return
+		}
+		seen[t] = true
+		if isEa {
+			out = append(out, sx("assert", and(sx("<", t, "0"), eq(sx(h+"!base", t), f.list[1].String()), eq(sx(h+"!idx", t), f.list[2].String()))))
+		} else {
+			out = append(out, sx("assert", and(sx("<", t, "0"), eq(sx(h+"!inv", t), f.list[1].String()))))
+		}
+	}
+	for _, a := range asserts {
+		if !strings.Contains(a, "(ea_") && !strings.Contains(a, "(fa_") {
+			continue
+		}
+		if f, ok := parseSexp(a); ok {
+			walk(f)
+		}
+	}
+	return out
 }
 
 func sortedSexpKeys(m map[string]*sexp) []string {
